@@ -265,6 +265,13 @@ class Run:
 
     def finish(self):
         self.cov["distinct_nontrivial"] = len(self.distinct)
+        if not self.cov.get("obligations"):
+            # no theorem registered for this property (yet): the run is what it is, an exploration
+            self.level = "exploration"
+            for k in ("obligations", "discharged", "checker_cmd", "trusted_base"):
+                self.cov.pop(k, None)
+        if not self.cov.get("samples"):
+            self.cov["samples"] = ["(no sample recorded)"]
         os.makedirs(os.path.join(VERIF, "evidence"), exist_ok=True)
         os.makedirs(os.path.join(VERIF, "replays"), exist_ok=True)
         rc = 0
@@ -301,7 +308,7 @@ class Run:
             print(l)
         print("%s %s tier=%s seed=%d: %d evaluations, %d distinct non-trivial, %d/%d obligations, %d violation(s), %.1fs"
               % ("FAIL" if rc else "PASS", self.prop, self.tier, self.seed, self.cov["evaluations"],
-                 self.cov["distinct_nontrivial"], self.cov["discharged"], self.cov["obligations"],
+                 self.cov["distinct_nontrivial"], self.cov.get("discharged", 0), self.cov.get("obligations", 0),
                  len(self.violations), time.time() - self.t0))
         return rc
 
